@@ -1108,7 +1108,8 @@ package hermes
 //@   after call LoadYear: ghost werr = werr || !isnil(res0)
 //@   after call WetterK: ghost werr = werr || !isnil(res0)
 //@   requires step: g.DT.Index == 1 && g.DT.Num == 1
-//@   requires day: 0 <= g.TAG.Index && g.TAG.Index + 1 <= g.JTAG && g.TAG.Offset == 1 && g.TAG.Num == real(g.TAG.Index + g.TAG.Offset)
+// (the day index at the top of the loop is the index of the day before: -1 on the first day of a run that starts on 1 January)
+//@   requires day: 0-1 <= g.TAG.Index && g.TAG.Index + 1 <= g.JTAG && g.TAG.Offset == 1 && g.TAG.Num == real(g.TAG.Index + g.TAG.Offset)
 //@   requires year: g.JTAG == 365 || g.JTAG == 366
 //@   ensures[C04,C05] nextday: ite(old(g.TAG.Index) + 2 > old(g.JTAG), g.TAG.Index == 0 && g.J == old(g.J) + 1, g.TAG.Index == old(g.TAG.Index) + 1 && g.J == old(g.J))
 //@   ensures[C04,C05] dual: g.TAG.Num == real(g.TAG.Index + 1)
@@ -1942,3 +1943,39 @@ package hermes
 //@   invariant range: keptIrrigations <= \i && (\i <= l.ANZBREG || \i == keptIrrigations) && unchanged(l.ANZBREG)
 //@   invariant zero: forall(k, keptIrrigations, \i, g.ZTBR[k] == 0 && g.BREG[k] == 0 && g.BRKZ[k] == 0)
 //@   invariant head: forall(k, 0, keptIrrigations, g.ZTBR[k] == pre(g.ZTBR[k]) && g.BREG[k] == pre(g.BREG[k]) && g.BRKZ[k] == pre(g.BRKZ[k]))
+
+// ---------------------------------------------------------------------------
+// Composition in the day loop of Run (modular: a caller is checked against the contracts of the regions and routines it
+// runs, not their bodies). The run constants (layer count, layer thickness, time step, leaching depth, drain factor, ET
+// method, the soil-parameter backup) and the calendar state that the regions of the day loop and the routines called from
+// it REQUIRE are established ONCE, at loop entry, and shown to be preserved by everything the loop body does: each
+// contracted region is replaced by "assert its preconditions, havoc what its real statements may write, assume its
+// postconditions" (`uses`), each routine by its inferred write set with the named preconditions asserted at the call
+// (`establishes`). What is proved here is therefore no longer an entry assumption of those units; what remains assumed is
+// this unit's own precondition (the state Input/readConfig/Init/the first weather year leave behind) - listed once.
+//@ region HermesSession.Run$1#dayglue from "for ZEIT := g.BEGINN; ZEIT <= g.ENDE; ZEIT = ZEIT + g.DT.Index {" to "for ZEIT := g.BEGINN; ZEIT <= g.ENDE; ZEIT = ZEIT + g.DT.Index {"
+//@   serves C01, C02, C04, C05, C06, C07, C08, C10, C15, C16, C20
+//@   opaque KalenderDate LoadYear WetterK GetGroundWaterLevel Hydro calcWRed setFieldCapacityWithGW Evatra Soiltemp Water PhytoOut Nitro Denitmo Denitr GlobalVarsMain.setIrrigation KalenderConverter$1 DateConverter$1
+//@   define consts() = 1 <= g.N && g.N <= 20 && g.DZ.Num == 10 && g.DZ.Index == 10 && g.DT.Num == 1 && g.DT.Index == 1 && 0 <= g.OUTN && g.OUTN <= g.N && 0 <= g.DRAIFAK && g.DRAIFAK <= 1 && 1 <= g.ETMETH && g.ETMETH <= 5
+//@   define caldr() = 0-1 <= g.TAG.Index && g.TAG.Index + 1 <= g.JTAG && g.JTAG <= 366 && g.TAG.Offset == 1 && g.TAG.Num == real(g.TAG.Index + g.TAG.Offset)
+//@   define backups() = forall(z, 0, g.N, 0 < g.WMIN_Backup[z] && g.WMIN_Backup[z] < g.W_Backup[z] && g.W_Backup[z] <= g.PORGES_Backup[z] && g.PORGES_Backup[z] < 1)
+//@   requires consts: consts()
+//@   requires calendar: caldr()
+//@   requires backup: backups()
+//@   uses HermesSession.Run$1#calendar: step day
+//@   uses HermesSession.Run$1#gwchange: layers backup
+//@   uses HermesSession.Run$1#irrigation: day
+//@   uses HermesSession.Run$1#deposition: units
+//@   uses HermesSession.Run$1#substeps: layers units day outn drain
+//@   uses HermesSession.Run$1#pereset: layers
+//@   uses HermesSession.Run$1#autoirr: day units
+//@   establishes Evatra: layers units day method
+//@   establishes Denitmo: day
+// the number of days of the year LoadYear has just loaded comes from the weather store (text layer): assumed once, here
+//@   after stmt "if g.TAG.Num == g.DT.Num {": assume yearlength: g.TAG.Index + 1 <= g.JTAG && g.JTAG <= 366
+// (the fertiliser forecast loads a weather year of its own through the same loader)
+//@   after stmt "if ZEIT == g.PROGNOS {": assume forecastyearlength: g.TAG.Index + 1 <= g.JTAG && g.JTAG <= 366
+//@ loop HermesSession.Run$1@"for ZEIT := g.BEGINN; ZEIT <= g.ENDE; ZEIT = ZEIT + g.DT.Index {"
+//@   invariant consts: consts()
+//@   invariant calendar: caldr()
+//@   invariant backup: backups()
